@@ -159,7 +159,7 @@ def main(pid, tier):
     if pid in ("C01", "C03", "C06"):
         # the design: every input of a small universe (byte strings, link structure, filters, unreadable identity) and every
         # order of the hashing tasks of the staged pipeline keeps Sound / Complete / NeverSplit / FilterHonoured (Grouping.tla)
-        cfgs = ["quick", "quickT", "iso", "thorough"] if thorough else {"C01": ["quick", "quickT"], "C03": ["quick"], "C06": ["isoq"]}[pid]
+        cfgs = ["quick", "quickS", "quickT", "iso", "thorough"] if thorough else {"C01": ["quickS", "quickT"], "C03": ["quick"], "C06": ["isoq"]}[pid]
         for c in cfgs:
             res = lib.run_tlc("MC_Grouping.tla", f"MC_Grouping_{c}.cfg", workers=12 if thorough else 8, timeout=7200, coverage=c.startswith("quick"), xmx="24g")
             chk.add_tlc(f"MC_Grouping_{c}(staged pipeline, all inputs of the small universe x all task orders)", res)
